@@ -20,7 +20,9 @@
 EXTENDS InitCmdContract, TLC, Json
 
 CONSTANTS Worlds,      \* set of [id, pkgs, gopkgs, cfgs, inits, envs, ancs] records (scratch module + alphabets)
-          IfacesOf,    \* package id -> set of interface names it declares (Go packages of the world)
+          IfacesOf,    \* package id -> names of the interfaces that must be mocked (Go packages of the world)
+          MayOf,       \* package id -> names of the interfaces the statement leaves open
+          ImplExtraOf, \* package id -> those of MayOf the code mocks today (every interface literal: constraints too)
           RejectedPkgs,\* package ids whose written file mockery's loader rejects   } known findings: yaml.v3 writes the key
           MangledPkgs, \* package ids that load back as a different string          } `<<` unquoted and mis-writes some block literals
           MaxHist,     \* bound on the number of operations in a history
@@ -48,8 +50,10 @@ view == <<world, start, decoy, anc, env, cfg, content, mocks, loaded, pc, pendin
 \* this to the parent of the link's DESTINATION, lexical cleaning to the directory holding the link; "linkdir":
 \* through the linked directory without `..` (control); "dslash": `cfgs//./conf.yml`.  The target path is what the
 \* kernel resolves: init.go hands the string to open(2) as it is.
+\* "ext-*": the file NAME -- other extensions than .yml (the loader must not care), none, a dotfile
+ExtClasses == {"ext-json", "ext-JSON", "ext-toml", "ext-txt", "ext-none", "ext-jsonyml", "ext-dot", "ext-absjson"}
 CfgClasses == {"default", "rel", "reldot", "abs", "subdir", "missing", "yamlext", "eqform", "after", "cwdsub",
-               "linkup", "linkupabs", "linkdir", "dslash"}
+               "linkup", "linkupabs", "linkdir", "dslash"} \cup ExtClasses
 TwoCandidates(c) == c \in {"linkup", "linkupabs"}   \* lexical cleaning would name another place (the decoy)
 ParentOK(c) == c # "missing"
 
@@ -133,12 +137,14 @@ Load(from) ==
 (* ------------------------------------------------------------- plain run *)
 IsGoPkg(p) == p \in world.gopkgs
 Ifc(p) == IF p \in DOMAIN IfacesOf THEN IfacesOf[p] ELSE {}
+May(p) == IF p \in DOMAIN MayOf THEN MayOf[p] ELSE {}
+ImplExtra(p) == IF p \in DOMAIN ImplExtraOf THEN ImplExtraOf[p] ELSE {}
 
 \* With the defaults init states (dir = interface dir, filename = mocks_test.go, force-file-write =
 \* false) the first run writes <pkg dir>/mocks_test.go and a second one refuses to overwrite it.
 RunImpl(c) ==
   IF c.k = "init" /\ IsGoPkg(c.p) /\ c.p \notin mocks
-  THEN [ok |-> TRUE, mocked |-> Ifc(c.p)]
+  THEN [ok |-> TRUE, mocked |-> Ifc(c.p) \cup ImplExtra(c.p)]
   ELSE [ok |-> FALSE, mocked |-> {}]
 
 Run(from) ==
@@ -147,7 +153,7 @@ Run(from) ==
                                                  \* package, says nothing about init
   /\ LET r == RunImpl(content) IN
      /\ Done([op |-> "run", from |-> from, pkg |-> By(content), ok |-> r.ok, mocked |-> r.mocked,
-              expect |-> RunExpect(By(content), IsGoPkg(content.p), Ifc(content.p), content.p \in mocks)])
+              expect |-> RunExpect(By(content), IsGoPkg(content.p), Ifc(content.p), May(content.p), content.p \in mocks)])
      /\ mocks' = IF r.ok THEN mocks \cup {content.p} ELSE mocks
   /\ UNCHANGED <<world, start, decoy, anc, env, cfg, content, loaded, pc, pending>>
 
@@ -165,7 +171,7 @@ KnownDeviation(rec) == rec.pkg \in RejectedPkgs \cup MangledPkgs
 Conforms(rec) ==
   CASE rec.op = "init" -> [ok |-> rec.ok, after |-> rec.after] \in rec.allow
     [] rec.op = "load" -> rec.expect.judged /\ ~KnownDeviation(rec) => rec.ok = rec.expect.ok /\ rec.keys = rec.expect.keys
-    [] rec.op = "run"  -> rec.expect.judged /\ ~KnownDeviation(rec) => rec.ok = rec.expect.ok /\ rec.mocked = rec.expect.mocked
+    [] rec.op = "run"  -> rec.expect.judged /\ ~KnownDeviation(rec) => rec.ok = rec.expect.ok /\ MockedOK(rec.expect, rec.mocked)
     [] OTHER -> TRUE
 
 ImplConforms == [][Len(hist') > Len(hist) => Conforms(last')]_vars
